@@ -378,7 +378,7 @@ func TestC02(t *testing.T) {
 	}
 	reps := 4
 	if thorough() {
-		reps = 12
+		reps = 8
 	}
 	em.Marker("begin", 0)
 	for fi, fc := range frees {
@@ -457,7 +457,7 @@ func TestC02(t *testing.T) {
 	// simultaneous opens (id allocation of streams)
 	nopens := 8
 	if thorough() {
-		nopens = 20
+		nopens = 12
 	}
 	for rep := 0; rep < nopens; rep++ {
 		epochs, wedged := runC02Opens(t, rep, 64, 20, rep%2 == 1)
@@ -630,7 +630,9 @@ func TestC02(t *testing.T) {
 	nrand := 260
 	maxN := 20
 	if thorough() {
-		nrand = 2000
+		// 900 (was 2000 in round 1): since round 2 about half of the random cases contain a concurrent handler and find
+		// their quiescence by goroutine dumps at every step, which is several times slower than synctest.Wait
+		nrand = 900
 		maxN = 200
 	}
 	for i := 0; i < nrand; i++ {
